@@ -195,3 +195,22 @@ Example C05_dec_esc_nonvacuous :
   (exists its, enc ex_dec_opts (VMap [(s "-id", VStr (s "&lt;1&gt;")); (s "#text", VStr (s "x &amp; y"))]) (s "a") = Ok its /\
                emit its = s "<a id=""&lt;1&gt;"">x &amp; y</a>").
 Proof. vm_compute. repeat split. eexists. split; reflexivity. Qed.
+
+(* ================================================================== tie to the code (regenerated on every run)
+   Gen/Pure_gen.v is go2v's statement-by-statement translation of func escapeChars and of the table escapechars
+   in /repo's CURRENT escapechars.go (bytes.Count / bytes.Replace as Gen/PureSupport.v defines them).  It IS
+   [escape_chars], the function the character-level theorems above are about, for every string. *)
+From Mxj Require Import Gen.Setters_gen Gen.PureSupport Gen.Pure_gen GenProofs.PureG.
+
+Theorem C05_escape_code_is_model : forall st x, fn_escapeChars st x = Ret (escape_chars x).
+Proof. exact escape_code_is_model. Qed.
+Print Assumptions C05_escape_code_is_model.
+
+Theorem C05_escape_table_is_code :
+  tbl_escapechars = map (fun pr : ascii * str => [[fst pr]; snd pr]) escape_table.
+Proof. exact escape_table_is_code. Qed.
+Print Assumptions C05_escape_table_is_code.
+
+Example C05_escape_code_nonvacuous :
+  fn_escapeChars gstate0 (s "a<b & ""c"" 'd' &amp; >") = Ret (s "a&lt;b &amp; &quot;c&quot; &apos;d&apos; &amp;amp; &gt;").
+Proof. vm_compute. reflexivity. Qed.
